@@ -318,6 +318,48 @@ func (c *Ctx) panicDesc(mod *core.Module, fn *ssa.Function, p *ssa.Panic) string
 		return "reached (unconditional)"
 	}
 	cd := conds[0]
+	// the condition is the outcome of a helper of the module that tests something of its argument (`linked, ok :=
+	// r.linked(); if !ok { panic }`): name the panic by what the helper tested, in the caller's terms, so that the key
+	// does not depend on whether the test sits here or in the helper
+	if call, _, isCall := core.CallResult(cd.V); isCall && mod == c.M {
+		for _, via := range conds[1:] {
+			if via.Via != call {
+				continue
+			}
+			bin, ok := via.V.(*ssa.BinOp)
+			if !ok {
+				break
+			}
+			px, py := c.M.CondPath(fn, via, bin.X), c.M.CondPath(fn, via, bin.Y)
+			if strings.HasPrefix(px, "%") || strings.HasPrefix(py, "%") {
+				break
+			}
+			op := bin.Op
+			if !via.True {
+				switch op {
+				case token.EQL:
+					op = token.NEQ
+				case token.NEQ:
+					op = token.EQL
+				default:
+					op = token.ILLEGAL
+				}
+			}
+			if op == token.ILLEGAL {
+				break
+			}
+			operand := func(v ssa.Value, path string) string {
+				if cst, ok := v.(*ssa.Const); ok {
+					if cst.Value == nil {
+						return "nil"
+					}
+					return cst.Value.ExactString()
+				}
+				return c.stable(fn, path)
+			}
+			return "(" + operand(bin.X, px) + " " + op.String() + " " + operand(bin.Y, py) + ")"
+		}
+	}
 	if mod != c.M {
 		return regRe.ReplaceAllString(c.condDescM(mod, fn, cd.V, cd.True), "<v>")
 	}
